@@ -426,17 +426,13 @@ func (m *Model) RunTextFlow(s *Sink, rule string) {
 		links = append(links, link{"object.(*HTML).String|is its value", ok, m.Pos(fn.Pos()), "object.HTML.String() is not exactly its Value"})
 	}
 	if ev := m.Method("evaluator", "Evaluator", "Eval"); ev != nil {
+		// decided by evaluating Eval on an abstract *ast.HTMLStmt whose token literal is a known text
 		ok := false
-		for _, b := range ev.Blocks {
-			for _, in := range b.Instrs {
-				st, isSt := in.(*ssa.Store)
-				if !isSt {
-					continue
-				}
-				if fa, isFa := st.Addr.(*ssa.FieldAddr); isFa && strings.HasSuffix(derefTypeString(fa.X.Type()), "object.HTML") {
-					if c, isC := st.Val.(*ssa.Call); isC && c.Call.StaticCallee() != nil && canonFnName(c.Call.StaticCallee()) == "String" && strings.HasSuffix(typeStr(c.Call.Args[0].Type()), "ast.HTMLStmt") {
-						ok = true
-					}
+		res, _, _ := m.evalOnNode("HTMLStmt", map[string]any{"Token.Literal": constant.MakeString("<TEXT>")})
+		if ro, isO := res.(*iStruct); isO && ro.typ.Obj().Name() == "HTML" {
+			for _, fv := range ro.fields {
+				if c, isC := fv.(constant.Value); isC && c.Kind() == constant.String && constant.StringVal(c) == "<TEXT>" {
+					ok = true
 				}
 			}
 		}
